@@ -121,6 +121,10 @@ var kindsFor = map[string][]string{
 	"C14": {"roundtrip", "marshal", "config-parse", "config-unpack", "roundtrip-assemble", "action-roundtrip", "operation-roundtrip", "unknown-action", "action-accepts-garbage", "operation-case", "action-case"},
 	"C13": {"nondeterministic-text"},
 	"C12": {"inverse", "alias", "unsupported"},
+	"C16": {"panic", "silent-truncation", "bad-name", "not-monotone", "cross-function"},
+	"C09": {"nil-but-not-in-force", "failed-load-left-state", "probe-changed-state"},
+	"C10": {"nil-but-not-in-force", "thread-not-covered", "flag-mismatch"},
+	"C11": {"failed-load-left-state", "nnp-wrong-thread"},
 }
 
 var familyCache = map[string][]map[string]interface{}{}
